@@ -424,6 +424,9 @@ where
             return;
         };
         let transitions_fail = self.matcher.all_transitions(fail_state).collect_vec();
+        // The fail state is skipped whenever a constraint transition is taken, so
+        // the patterns it accepts must be accepted at the targets too.
+        let matches_fail = self.matcher.matches(fail_state).clone();
         for transition in self.matcher.all_constraint_transitions(state).collect_vec() {
             let target = self.matcher.split_target(transition);
             self.recently_added.insert(target.0);
@@ -433,6 +436,9 @@ where
                     self.matcher.next_state(t),
                     self.matcher.constraint(t).cloned(),
                 );
+            }
+            for (&pattern, bindings) in &matches_fail {
+                self.matcher.add_match(target, pattern, bindings.clone());
             }
         }
     }
